@@ -5,6 +5,7 @@ the iteration bound, and the BFS layering invariant. -/
 namespace Solvor.Path
 set_option linter.unusedSectionVars false
 set_option linter.unusedVariables false
+set_option linter.unusedSimpArgs false
 
 /-! ### small facts -/
 
